@@ -3,14 +3,15 @@ import json, os, re, shutil
 import vlib
 
 CLOSURE = ["Model/Announcer.v", "Proofs/AnnouncerP.v", "Proofs/AnnouncerNdpP.v", "Proofs/AnnouncerTop.v",
-           "Model/AnnouncerExt.v", "Proofs/AnnouncerExtP.v"]
+           "Model/AnnouncerExt.v", "Proofs/AnnouncerExtP.v", "Proofs/AnnouncerLockP.v",
+           "Model/AnnouncerJoin.v", "Proofs/AnnouncerJoinP.v"]
 COQ_FILES = ["Properties/C13.v", "Corr/Run_Announcer.v", "Model/AnnouncerSkel.v"]
 PKG = "internal/layer2"
 FILES = ["zz_verif.go", "zz_verif_ann_test.go"]
 
 
 def sections(ctx, ok):
-    """the assumption of C13_rw_atomic, decided on lock facts regenerated from announcer.go"""
+    """the assumption of C13_rw_serial_by_definition, decided on lock facts regenerated from announcer.go"""
     tooldir = os.path.join(vlib.VERIF, "tools", "lockfacts")
     exe = os.path.join(ctx.work, "lockfacts")
     rc, out, _ = vlib.sh(["go", "build", "-o", exe, "."], cwd=tooldir,
@@ -172,6 +173,23 @@ def run(ctx):
             ctx.corr_broken.append("rescan history %d: the real updateInterfaces / kernel membership and Model/AnnouncerExt.rescan disagree: %s" %
                                    (m, json.dumps(xcases[m]["in"])[:900]))
 
+    # multicast joins that fail: real responders in a private network namespace (needs the privilege to unshare)
+    jcases = []
+    recs, okrun, log = ctx.go_harness(PKG, FILES, "TestVerifJoinFailure$", seed=ctx.seed, n=3 if not thorough else 12, tag="jf", timeout=300)
+    for r in recs:
+        if r.get("t") == "fail":
+            ctx.oracle_fail(r.get("sig", "?"), r.get("what", ""), r.get("replay"))
+        elif r.get("t") == "stat":
+            st[r["k"]] = st.get(r["k"], 0) + r["v"]
+        elif r.get("t") == "case":
+            jcases.append(r)
+    if not okrun and not any(r.get("t") == "fail" for r in recs) and not any("does not build" in c for c in ctx.corr_broken):
+        ctx.corr_broken.append("harness TestVerifJoinFailure failed: " + log[-1500:])
+    if ok and jcases:
+        jm = ctx.coq_cases("Run_Announcer", "jcase", [c["coq"] for c in jcases], shard=4, fn="jmismatches")
+        for m in jm[:5]:
+            ctx.corr_broken.append("join-failure history %d: kernel membership and Model/AnnouncerJoin disagree: %s" % (m, json.dumps(jcases[m]["in"])[:900]))
+
     def search():
         for k in range(4):
             sequential(400, ctx.seed * 1000 + 7 + k, "s%d" % k)
@@ -182,7 +200,7 @@ def run(ctx):
     distinct = len({json.dumps(c["in"], sort_keys=True) for c in hist if
                     any(o["kind"] == "set" for o in c["in"]["ops"]) and any(o["kind"] == "del" for o in c["in"]["ops"])})
     ndp = st.get("ndp_responders", 0) > 0
-    ctx.cov["correspondence"] = {"histories": len(hist), "history_mismatches": len(mism), "rescan_histories": len(xcases),
+    ctx.cov["correspondence"] = {"histories": len(hist), "history_mismatches": len(mism), "rescan_histories": len(xcases), "join_failure_histories": len(jcases),
                                  "concurrent_runs": len(conc), "concurrent_mismatches": len(tm),
                                  "generator_counters": st, "ndp_sockets_available": ndp}
     ctx.trusted += [
@@ -191,7 +209,7 @@ def run(ctx):
         "updateInterfaces (responders appearing/disappearing), the spam loop's timing and real sockets are outside the model",
         "the ARP responder is driven over an in-process net.PacketConn through mdlayher/arp's real parser; NDP responders (when an ICMPv6 socket "
         "on a link-local interface is available: %s) are driven for Watch/Unwatch only, ndpResponder.processRequest is not driven" % ndp,
-        "C13_rw_atomic assumes every announcer method is one critical section of Announce.RWMutex; decided on every run on lock facts regenerated from announcer.go "
+        "C13_rw_serial_by_definition assumes every announcer method is one critical section of Announce.RWMutex; decided on every run on lock facts regenerated from announcer.go "
         "(announcer_methods_are_critical_sections, tools/lockfacts, syntactic); that sections of one RWMutex are atomic for readers (answers come from a prefix of the complete writer sections) is C20_rw_sections_atomic (Model/Lock.v semantics); "
         "the -race run of the thorough tier samples schedules",
     ]
